@@ -92,7 +92,7 @@ TIE_FUNCS = {
                                "Repr.replace_inner", "Repr.new"],
     "LSProofs.Gen.StepG": ["Repr.new", "Repr.from_str", "Repr.with_capacity", "Repr.replace_inner", "Repr.set_len", "Repr.truncate_unchecked",
                            "Repr.truncate", "Repr.make_shallow_clone", "Repr.reserve", "Repr.shrink_to", "Repr.ensure_modifiable",
-                           "Repr.push_str", "Repr.insert_str", "Repr.remove", "Repr.pop", "Repr.is_unique", "LeanString.clear",
+                           "Repr.push_str", "Repr.insert_str", "Repr.remove", "Repr.pop", "Repr.retain", "Repr.is_unique", "LeanString.clear",
                            "LeanString.clone", "LeanString.clone_from", "LeanString.drop"],
     "LSProofs.Gen.HeapBuf": ["TextLen.new_body", "Capacity.new_body", "HeapBuffer.allocate_ptr_body", "HeapBuffer.new_body",
                              "HeapBuffer.with_capacity_body", "HeapBuffer.with_additional_body", "HeapBuffer.allocation_body",
@@ -102,26 +102,27 @@ TIE_FUNCS = {
                            "StaticBuffer.len_body", "StaticBuffer.set_len_body", "Repr.last_byte_body", "Repr.len_body",
                            "Repr.is_empty_body", "Repr.as_bytes_body", "Repr.as_str_body", "Repr.as_slice_mut_body",
                            "Repr.as_str_mut_body", "Repr.from_char", "Repr.from_bool"],
+    "LSProofs.Gen.Retain": ["Repr.retain", "Repr.ensure_modifiable", "Repr.set_len"],
     "LSProofs.Props.C01G": [],
     "LSProofs.Gen.Good": ["Repr.push_str", "Repr.insert_str", "Repr.pop", "Repr.remove", "Repr.reserve", "Repr.ensure_modifiable",
                           "Repr.shrink_to", "Repr.set_len", "Repr.truncate_unchecked", "Repr.replace_inner", "Repr.from_str",
                           "Repr.make_shallow_clone"],
 }
 TIES = {
-    "C01": T("Ctor", "Readers", "Release", "SetLen", "Reserve", "Ensure", "Shrink", "Clone", "Clear", "PushStr", "InsertStr", "PopRemove", "Good", "Wrappers", "Panicking", "Extend", "Collect", "Decode", "CloneDrop", "StepG", "HeapBuf", "Bytes") + ["LSProofs.Props.C01G"],
+    "C01": T("Ctor", "Readers", "Release", "SetLen", "Reserve", "Ensure", "Shrink", "Clone", "Clear", "PushStr", "InsertStr", "PopRemove", "Good", "Wrappers", "Panicking", "Extend", "Collect", "Decode", "CloneDrop", "StepG", "HeapBuf", "Bytes", "Retain") + ["LSProofs.Props.C01G"],
     "C02": T("Reserve", "Ensure", "Shrink", "Clear", "SetLen", "StepG", "HeapBuf"),
     "C03": T("Release", "Clone", "CloneDrop", "Collect", "Reserve", "Ensure", "Shrink", "StepG", "HeapBuf"),
     "C05": T("Reserve", "Ensure", "Shrink", "SetLen", "Ctor", "PushStr", "InsertStr", "PopRemove", "Wrappers", "Panicking", "Extend", "Collect", "HeapBuf"),
     "C06": T("Reserve", "Shrink", "Ctor", "Extend", "Collect", "HeapBuf"),
     "C07": T("SetLen", "InsertStr", "PopRemove"),
     "C08": T("Clone", "CloneDrop"),
-    "C09": T("Ctor", "Reserve", "PushStr", "InsertStr", "PopRemove", "Wrappers", "Bytes"),
+    "C09": T("Ctor", "Reserve", "PushStr", "InsertStr", "PopRemove", "Wrappers", "Bytes", "Retain"),
     "C10": T("Ctor", "Reserve", "Ensure", "Clear", "SetLen", "Bytes"),
     "C11": T("Readers", "Ctor", "Reserve", "PushStr", "InsertStr", "Wrappers", "HeapBuf"),
     "C12": T("Reserve", "HeapBuf"),
     "C13": T("Shrink", "HeapBuf"),
     "C16": T("Decode"),
-    "C18": T("Extend", "Collect"),
+    "C18": T("Extend", "Collect", "Retain"),
     "C20": T("Kind", "Bytes"),
 }
 
